@@ -2,6 +2,7 @@
 package main
 
 import (
+	"net"
 	"reflect"
 	"strings"
 	"unsafe"
@@ -349,6 +350,68 @@ func run(r *Rng, tier string, n int) {
 				}
 				checkLen(m, false, false, "opt-owner-not-root")
 				st["opt_owner_messages"]++
+			}
+		}
+	}
+	// (2d) values in the forms a program builds them (not the forms the parser or the decoder produce): IPv4
+	// addresses in 16-octet form in every field that holds one
+	{
+		v4 := net.ParseIP("192.0.2.1") // 16 octets
+		recs := []dns.RR{
+			&dns.A{Hdr: dns.RR_Header{Name: "v.example.", Rrtype: dns.TypeA, Class: 1}, A: v4},
+			&dns.SVCB{Hdr: dns.RR_Header{Name: "v.example.", Rrtype: dns.TypeSVCB, Class: 1}, Priority: 1, Target: ".", Value: []dns.SVCBKeyValue{&dns.SVCBIPv4Hint{Hint: []net.IP{v4, net.ParseIP("192.0.2.2")}}}},
+			&dns.HTTPS{SVCB: dns.SVCB{Hdr: dns.RR_Header{Name: "v.example.", Rrtype: dns.TypeHTTPS, Class: 1}, Priority: 1, Target: ".", Value: []dns.SVCBKeyValue{&dns.SVCBAlpn{Alpn: []string{"h2"}}, &dns.SVCBIPv4Hint{Hint: []net.IP{v4}}}}},
+			&dns.L32{Hdr: dns.RR_Header{Name: "v.example.", Rrtype: dns.TypeL32, Class: 1}, Preference: 1, Locator32: v4},
+			&dns.IPSECKEY{Hdr: dns.RR_Header{Name: "v.example.", Rrtype: dns.TypeIPSECKEY, Class: 1}, Precedence: 1, GatewayType: 1, Algorithm: 2, GatewayAddr: v4, PublicKey: "AQID"},
+			&dns.AMTRELAY{Hdr: dns.RR_Header{Name: "v.example.", Rrtype: dns.TypeAMTRELAY, Class: 1}, Precedence: 1, GatewayType: 1, GatewayAddr: v4},
+			&dns.APL{Hdr: dns.RR_Header{Name: "v.example.", Rrtype: dns.TypeAPL, Class: 1}, Prefixes: []dns.APLPrefix{{Network: net.IPNet{IP: v4, Mask: net.CIDRMask(24, 32)}}}},
+		}
+		opt := &dns.OPT{Hdr: dns.RR_Header{Name: ".", Rrtype: dns.TypeOPT, Class: 1232}}
+		opt.Option = []dns.EDNS0{&dns.EDNS0_SUBNET{Code: dns.EDNS0SUBNET, Family: 1, SourceNetmask: 24, Address: v4}}
+		for _, rr := range recs {
+			for _, compress := range []bool{false, true} {
+				m := new(dns.Msg)
+				m.Compress = compress
+				m.SetQuestion("v.example.", rr.Header().Rrtype)
+				m.Answer = []dns.RR{rr, dns.Copy(rr)}
+				m.Extra = []dns.RR{opt}
+				checkLen(m, false, false, "ipv4-in-16-octet-form")
+				st["noncanonical_form_messages"]++
+			}
+		}
+	}
+	// (2e) sequences of operations in one goroutine: Truncate, Len, Pack, PackBuffer, Copy on messages that
+	// share names: what Len says about a message depends on that message only, whatever ran before
+	{
+		var np []string
+		mk := func(k int) *dns.Msg {
+			m := new(dns.Msg)
+			m.Compress = true
+			m.Response = true
+			m.SetQuestion(plainName(r, &np), dns.TypeSRV)
+			for j := 0; j < k; j++ {
+				m.Answer = append(m.Answer, plainRR(r, &np, commonTypes[r.Intn(len(commonTypes))]))
+			}
+			return m
+		}
+		for round := 0; round < 12; round++ {
+			big, small := mk(40+r.Intn(20)), mk(2+r.Intn(3))
+			for _, op := range []int{0, 1, 2, 3} {
+				switch op {
+				case 0:
+					big.Copy().Truncate(512)
+				case 1:
+					_ = big.Len()
+				case 2:
+					_, _ = big.Pack()
+				case 3:
+					t := big.Copy()
+					t.Truncate(700)
+					_, _ = t.PackBuffer(make([]byte, 800))
+				}
+				checkLen(small, true, false, "after-other-operations")
+				checkLen(big, true, false, "after-other-operations")
+				st["operation_sequences"]++
 			}
 		}
 	}
